@@ -23,8 +23,9 @@ NPROC = 16
 def _import_target():
     import pyg_base
     path = os.path.realpath(pyg_base.__file__)
-    if not path.startswith('/repo/src/'):
-        print('HARNESS-ERROR pyg_base imported from %s, not from /repo/src' % path)
+    want = os.path.realpath(os.environ.get('PV_REPO_SRC', '/repo/src')) + '/'
+    if not path.startswith(want):
+        print('HARNESS-ERROR pyg_base imported from %s, not from %s' % (path, want))
         sys.exit(2)
     return pyg_base
 
